@@ -195,11 +195,16 @@ def execute(engine_cls, prop, *, seed=None, cfg=None, ops=None, findings=None, t
                 # traceback lies in the library's source tree) is a verdict on the library, not harness trouble: the
                 # library's public reads are expected to answer
                 tb = e.__traceback__
-                last = None
+                files = []
                 while tb is not None:
-                    last = tb.tb_frame.f_code.co_filename
+                    files.append(os.path.realpath(tb.tb_frame.f_code.co_filename))
                     tb = tb.tb_next
-                if last and os.path.realpath(last).startswith(os.path.realpath(REPO_SRC) + os.sep) and i > 0:
+                repo = os.path.realpath(REPO_SRC) + os.sep
+                mine = (os.path.join(VERIF_DIR, "engines") + os.sep, os.path.join(VERIF_DIR, "simkit", "kernel.py"))
+                k_mine = max([k for k, f in enumerate(files) if f.startswith(mine)] or [-1])
+                lib = [f for f in files[k_mine + 1:] if f.startswith(repo)]  # frames of the library BELOW the last frame of an oracle
+                last = lib[-1] if lib else None
+                if last and i > 0:
                     vs = [Violation(prop, "library-raised-while-observed", op.get("op", "?") if op.get("op") != "read" else "read:" + str(op.get("kind")), [], type(e).__name__,
                                     f"{type(e).__name__}: {e} (raised in {os.path.relpath(last, os.path.realpath(REPO_SRC))} while the step's oracle was reading the document)")]
                 else:
